@@ -27,7 +27,7 @@
 
 #define ISCOMMA(c) ((c == ',') ? 1 : 0)
 
-static char *symptr[VSFIELDMAX];                   /* array of ptrs to tokens  ? */
+static char *symptr[VSFIELDMAX + 1];               /* array of ptrs to tokens, NULL terminated */
 static char  sym[VSFIELDMAX][FIELDNAMELENMAX + 1]; /* array of tokens ? */
 static int   nsym;                                 /* token index ? */
 
@@ -93,6 +93,10 @@ scanattrs(const char *attrs, int32 *attrc, char ***attrv)
             if (len <= 0)
                 return FAIL;
 
+            /* no room for more than VSFIELDMAX tokens in the static tables */
+            if (nsym >= VSFIELDMAX)
+                return FAIL;
+
             /* save that token */
             ss = symptr[nsym] = sym[nsym];
             nsym++;
@@ -121,7 +125,7 @@ scanattrs(const char *attrs, int32 *attrc, char ***attrv)
 
     /* save the last token */
     len = (int)(s - s0);
-    if (len <= 0)
+    if (len <= 0 || nsym >= VSFIELDMAX)
         return FAIL;
     ss = symptr[nsym] = sym[nsym];
     nsym++;
